@@ -1,5 +1,5 @@
 (* Extraction of the correspondence entry points; ExtrOcamlBasic only. *)
 From Coq Require Extraction ExtrOcamlBasic.
-From VJ Require Import Model.Str Model.Json Model.Text Corr.Run.
+From VJ Require Import Model.Str Model.Json Model.Text Spec.JsxText Corr.Run.
 Extraction Language OCaml.
-Separate Extraction run_case transform_text.
+Separate Extraction run_case transform_text jsx_clean.
